@@ -17,9 +17,13 @@ def cases(rng, tier):
             p["opt_pos"] = rng.below(4)
         b, marks = dns.encode_marked(p, rng, rng.choice([0, 2, 4]))
         out.append("REPARSE " + b.hex())
-        if k % 10 == 0:
+        if k % 25 == 0:
             for m in dns.malformations(b, marks, rng, budget=40):
                 out.append("REPARSE " + (m.hex() or "-"))
+    # messages beyond 16 KiB whose late names repeat (re-serialisation must not emit unusable pointers)
+    for p in pktgen.big_packets(rng, 3 if tier == "quick" else 12) + pktgen.straddle_packets(rng, (1, 5, 6, 11)):
+        b, _ = dns.encode_marked(p, rng, 0)
+        out.append("REPARSE " + b.hex())
     # every opcode x rcode nibble, with and without OPT (extended rcode)
     for op in range(16):
         for rc in range(16):
